@@ -1,14 +1,115 @@
-"""C02 — see DESIGN.md §4."""
-from harness.props.shellprops import evaluate, gen_cases  # noqa: F401
+"""C02 — see DESIGN.md §4. Besides the whole-run cases (shellprops), the input validation
+`lbfgsb.base.get_bounds` is compared with its Lean model (Model/Bounds.lean, driver command
+`getbounds`): accepted/rejected alike, error kind, returned arrays bit for bit — the theorem
+C02 `getBounds_ok` (an accepted call yields a well-formed box containing the start) is about
+that model."""
+import math
+import random
+
+import numpy as np
+
+from harness import shell
+from harness.common import fhex, vhex
+from harness.props.shellprops import evaluate as evaluate_run, gen_cases
 from harness.runner import run_property
 from harness.props import c02_cfg as K
 
 PROP = "C02"
 
+_ERR = [("x0 cannot be an empty vector", "emptyX"), ("Length of x0 != length of bounds", "lenMismatch"),
+        ("lower bounds is greater", "lbGtUb"), ("violating", "x0Outside")]
+
+
+def gen_bounds_case(seed: int):
+    r = random.Random(seed)
+    n = r.choice([0, 1, 1, 2, 3, 4, 6])
+    vals = [0.0, -0.0, 1.0, -1.0, 0.1, 1e-300, 1e300, math.inf, -math.inf, 2.5, -3.75, 1 / 3]
+    x0 = [r.choice(vals[:7] + [2.5, -3.75, 1 / 3]) if r.random() < 0.5 else r.uniform(-5, 5) for _ in range(n)]
+    mode = r.choice(["none", "valid", "valid", "valid", "reversed", "outside", "short", "long", "mixed", "nan"])
+    if mode == "none":
+        return {"x0": x0, "bounds": None, "mode": mode}
+    m = n if mode not in ("short", "long") else max(0, n + (-1 if mode == "short" else 1))
+    b = []
+    for i in range(m):
+        xi = x0[i] if i < n else 0.0
+        kind = r.choice(["both", "lower", "upper", "free", "equal", "inf"])
+        lo = xi - abs(r.choice([0.0, 1e-12, 0.5, 3.0]))
+        hi = xi + abs(r.choice([0.0, 1e-12, 0.5, 3.0]))
+        if kind == "lower":
+            hi = None
+        elif kind == "upper":
+            lo = None
+        elif kind == "free":
+            lo, hi = None, None
+        elif kind == "equal":
+            lo = hi = xi
+        elif kind == "inf":
+            lo, hi = -math.inf, math.inf
+        b.append([lo, hi])
+    if mode == "reversed" and b:
+        j = r.randrange(len(b))
+        b[j] = [1.0, r.choice([0.5, 1.0 - 2 ** -52, -math.inf])]
+    if mode == "outside" and b and n:
+        j = r.randrange(min(len(b), n))
+        d = r.choice([1.0, 1e-9, abs(x0[j]) * 2 ** -52 + 5e-324])
+        b[j] = [x0[j] + d, x0[j] + d + 1.0] if r.random() < 0.5 else [x0[j] - d - 1.0, x0[j] - d]
+    if mode == "mixed" and b:
+        for j in range(len(b)):
+            if r.random() < 0.3:
+                b[j] = [r.choice([None, -math.inf, 0.0]), r.choice([None, math.inf, 0.0])]
+    if mode == "nan" and b:
+        j = r.randrange(len(b))
+        b[j][r.randrange(2)] = math.nan
+    return {"x0": x0, "bounds": b, "mode": mode}
+
+
+def evaluate_bounds(case):
+    from lbfgsb.base import get_bounds
+    out = {"corr": [], "skipped": None, "tags": [f"bounds_mode={case['mode']}"], "prop": []}
+    x0 = np.array(case["x0"], dtype=float)
+    b = case["bounds"]
+    try:
+        lb, ub = get_bounds(x0, None if b is None else [tuple(p) for p in b])
+        impl = f"getbounds ok {vhex(lb)} {vhex(ub)}"
+        # the property side, judged directly: a box of the size of x0 with lb <= x0 <= ub
+        if not (len(lb) == len(ub) == len(x0) > 0) or bool((lb > ub).any()) or bool((x0 < lb).any()) or bool((x0 > ub).any()):
+            out["prop"].append({"what": "get_bounds accepted a malformed box or a start outside it", "key": "",
+                                "detail": {"x0": case["x0"], "bounds": b}})
+        out["tags"].append("bounds_accepted=True")
+    except ValueError as e:
+        kind = next((k for pat, k in _ERR if pat in str(e)), "other:" + str(e)[:60])
+        impl = f"getbounds err {kind}"
+        out["tags"].append(f"bounds_error={kind}")
+    except Exception as e:  # not one of the documented errors
+        impl = f"getbounds exc {type(e).__name__}"
+        out["tags"].append(f"bounds_exc={type(e).__name__}")
+    if b is None:
+        line = f"getbounds {vhex(x0)} none -"
+    else:
+        lo = ",".join("N" if p[0] is None else fhex(p[0]) for p in b) or "-"
+        hi = ",".join("N" if p[1] is None else fhex(p[1]) for p in b) or "-"
+        line = f"getbounds {vhex(x0)} {lo} {hi}"
+    got = shell.driver().run([line])
+    if not got or got[0] != impl:
+        out["corr"].append(f"get_bounds: implementation {impl!r} model {(got or [''])[0]!r}")
+    if impl.startswith("getbounds ok") and len(x0) > 1:
+        out["nontrivial"] = f"bounds:{case['seed']}"
+    return out
+
+
+def evaluate(case):
+    if case.get("kind") == "bounds":
+        return evaluate_bounds(case)
+    return evaluate_run(case)
+
 
 def run(tier: str, seed: int) -> int:
     n = K.N_QUICK if tier == "quick" else K.N_THOROUGH
     cases = gen_cases(PROP, n, seed, K.MONITORS, K.features, **K.COMMON)
+    nb = 1500 if tier == "quick" else 30000
+    for i in range(nb):
+        s = seed * 7_000_003 + i
+        cases.append({"kind": "bounds", "seed": s, **gen_bounds_case(s)})
     return run_property(PROP, "harness.props.c02", K.THEOREMS, K.MODULES, cases, tier, seed,
                         rule=K.RULE, assumptions=K.ASSUMPTIONS)
 
